@@ -156,6 +156,7 @@ impl<'store> Transposable<'store> for ResultTextSelectionSet<'store> {
         // that we are dealing with a simple transposition instead) the source side that matches
         // can never be the same as the target side that is mappped to
         while let Some(tsel) = tselbuffer.pop_front() {
+            let mut matched = false; //was (the beginning of) this text selection found in any side?
 
             // iterate over all the sides
             for (side_i, annotation) in via.annotations_in_targets(AnnotationDepth::One).enumerate()
@@ -233,6 +234,7 @@ impl<'store> Transposable<'store> for ResultTextSelectionSet<'store> {
                                 resource.handle().into(),
                                 source_offset,
                             ));
+                            matched = true;
                             break;
                         }
                     }
@@ -240,6 +242,16 @@ impl<'store> Transposable<'store> for ResultTextSelectionSet<'store> {
             }
             if simple_transposition {
                 break;
+            }
+            if !matched {
+                //a source fragment (or the remainder of one) is not covered by the transposition
+                return Err(StamError::TransposeError(
+                    format!(
+                        "Not all source fragments were found in the complex transposition {}, not enough to transpose",
+                        via.id().unwrap_or("(no-id)"),
+                    ),
+                    "",
+                ));
             }
         }
 
